@@ -11,7 +11,11 @@ R5 pixel fit: the stamp's slice origin is the offset added back to the fitted po
 """
 import ast
 
-from sa import sym
+import itertools
+import math
+
+from sa import sym, boolalg
+from sa.teval import teval, UNKNOWN
 from sa.sym import show, num, num_value, atoms_of, PI
 from sa.model import dotted, own_calls, own_nodes
 from .toastgeom import level1_table
@@ -36,6 +40,44 @@ MANIFEST = {
 }
 
 
+
+def _descent(project, f):
+    """One step of the descent loop of toast_tile_for_point, evaluated straight-line (the four children of _div4 unrolled,
+    local helpers inlined): (current-tile symbol, chosen-tile term, child terms, score terms) or (None, reason)."""
+    loops = [n for n in own_nodes(f.node) if isinstance(n, ast.While)]
+    loop = None
+    var = None
+    for w in loops:
+        for x in ast.walk(w.test):
+            if isinstance(x, ast.Attribute) and x.attr == "n" and isinstance(x.value, ast.Attribute) and x.value.attr == "pos" \
+                    and isinstance(x.value.value, ast.Name):
+                loop, var = w, x.value.value.id
+    if loop is None:
+        return None, "no `while <tile>.pos.n < depth` descent loop found"
+    ev = sym.make_evaluator(project, T, [], inline_local=True, no_inline=("_toast_tile_containment_score", "_div4", "_create_level1_tiles"))
+    ev.unroll = True
+    CUR = ("sym", "CURRENT")
+    div = ("call", ("sym", "_div4"), (CUR,), ())
+    ev.static_len = lambda t: 4 if (t[0] == "call" and t[1] == ("sym", "_div4")) else None
+    env = {p: ("sym", p) for p in f.params()}
+    env[var] = CUR
+    rb = ev.run_block(loop.body, env)
+    if rb.env is None or var not in rb.env:
+        return None, "cannot evaluate the body of the descent loop"
+    children = [("item", div, i) for i in range(4)]
+    scores = []
+    for e in rb.events:
+        if e.kind == "call" and e.term[1] == ("sym", "_toast_tile_containment_score") and e.term[2] and e.term[2][0] in children:
+            scores.append(e.term)
+    return (CUR, rb.env[var], children, scores, rb), None
+
+
+def _leaves(t):
+    if t[0] == "ite":
+        return _leaves(t[2]) + _leaves(t[3])
+    return [t]
+
+
 def run(run):
     run.explanation = EXPLANATION
     run.undecided_clauses += ["geometric containment of the point in the returned tile at depth >= 2 (floating point)",
@@ -44,6 +86,7 @@ def run(run):
         run.floor(r, n)
     project = run.project
     ev = sym.make_evaluator(project, T, [])
+    ev.static_len = lambda t: 4 if (t[0] == "attr" and t[2] == "corners") else None      # a tile has four corners
     two_pi = sym.mul(num(2), PI)
     f = project.fn(T + ".toast_tile_for_point")
     run.note_func(f)
@@ -67,21 +110,23 @@ def run(run):
             run.violated("C12.R1", f, scores[0].node, "longitude reduced modulo %s instead of 2*pi" % show(bad_mod[0][2][1]), kind="modulus")
         else:
             run.holds("C12.R1", f, scores[0].node, "every containment test sees lon mod 2*pi")
-    # ---- R2 nesting (same facts as C04.R5d)
+    # ---- R2 nesting: one descent step replaces the current tile by one of its own children
     div_loops = [(k, it, n) for k, it, n in r.loops if it[0] == "call" and it[1] == ("sym", "_div4")]
-    bad = []
-    for e in r.events:
-        if e.kind == "assign" and e.term[1][0] == ("sym", "tile"):
-            ins = [x for x in div_loops if ("loop", x[0]) in e.pc]
-            if ins and e.term[1][1] != ("elem", ins[-1][1]):
-                bad.append(e)
-    if not div_loops:
-        run.violated("C12.R2", f, None, "the descent does not go through _div4(tile): results for increasing depth need not be nested", kind="no-div4")
-    elif bad:
-        run.violated("C12.R2", f, bad[0].node, "during the descent the current tile is replaced by %s, not by one of its own children" % show(bad[0].term[1][1])[:80],
-                     kind="not-a-child")
+    desc, why = _descent(project, f)
+    if desc is None:
+        run.undecided("C12.R2", f, None, why, kind="descent-shape")
     else:
-        run.holds("C12.R2", f, div_loops[0][2], "current tile only replaced by an element of _div4(current): tiles for increasing depth are nested")
+        CUR, chosen, children, score_terms, rb = desc
+        lv = _leaves(chosen)
+        bad = [t for t in lv if t not in children and t != CUR]
+        if not any(t in children for t in lv):
+            run.violated("C12.R2", f, None, "the descent does not go through _div4(tile): results for increasing depth need not be nested (next tile is %s)" % show(chosen)[:100],
+                         kind="no-div4")
+        elif bad:
+            run.violated("C12.R2", f, None, "during the descent the current tile is replaced by %s, not by one of its own children" % show(bad[0])[:80],
+                         kind="not-a-child")
+        else:
+            run.holds("C12.R2", f, None, "current tile only replaced by an element of _div4(current): tiles for increasing depth are nested")
     # ---- R3 coordinate-system dependence of the level-1 choice
     lv1 = [e for e in scores if [c for c in e.pc if c[0] == "loop"] and not any(("loop", k) in e.pc for k, it, n in div_loops)]
     sc = project.fn(T + "._toast_tile_containment_score")
@@ -106,71 +151,64 @@ def run(run):
             run.undecided("C12.R3", f, lv1[0].node, "level-1 choice is made from the tile corners; not decided", kind="level1-corners")
         else:
             run.violated("C12.R3", f, lv1[0].node, "level-1 longitude is %s; expected lon mod 2pi, plus pi (mod 2pi) exactly for PLANETARY" % show(x)[:140], kind="level1-rotation")
-    # level-1 ranges vs the corner table
+    # level-1 ranges vs the corner table: the score function is evaluated over a finite domain (17 longitudes k*pi/8,
+    # the four level-1 positions) and the positions it accepts are compared with the table's equatorial corners
     rs = ev.run(sc.node)
     tile_p, lat_s, lon_s = (("sym", p) for p in sc.params()[:3])
     posx, posy, posn = (("attr", ("attr", tile_p, "pos"), a) for a in ("x", "y", "n"))
-    ranges = {}
-    range_list = []
-    for pc, t, n in rs.returns:
-        if num_value(t) != 0:
-            continue
-        conds = [c for c in pc if c[0] != "loop"]
-        if not any(c == sym.cmp("Eq", posn, num(1)) and p for c, p in conds):
-            continue
-        last = conds[-1]
-        if not last[1] or last[0][0] != "op" or last[0][1] != "and":
-            continue
-        lo = hi = xx = yy = None
-        for c in last[0][2]:
-            if c[0] == "op" and c[1].startswith("cmp:"):
-                a, b = c[2]
-                op = c[1][4:]
-                if a == lon_s and op in ("GtE", "Gt"):
-                    lo = (b, op)
-                elif a == lon_s and op in ("LtE", "Lt"):
-                    hi = (b, op)
-                elif op == "Eq" and posx in (a, b):
-                    xx = num_value(b if a == posx else a)
-                elif op == "Eq" and posy in (a, b):
-                    yy = num_value(b if a == posy else a)
-        if None not in (lo, hi, xx, yy):
-            ranges[(int(xx), int(yy))] = (lo, hi)
-            range_list.append((int(xx), int(yy), lo, hi))
     name, rows, node = level1_table(project)
-    if len(range_list) == 4 and len(ranges) < 4:
-        dup = [k for k in ranges if sum(1 for r_ in range_list if (r_[0], r_[1]) == k) > 1]
-        run.violated("C12.R3", sc, None, "two level-1 longitude ranges select the same tile position %s and another position is never selected: points in "
-                     "that quadrant get the wrong level-1 tile" % dup, kind="level1-range-table")
-    elif len(ranges) != 4 or not rows:
-        run.undecided("C12.R3", sc, None, "cannot extract the four level-1 longitude ranges (%d found)" % len(ranges), kind="level1-ranges")
+    if not rows or not rs.returns:
+        run.undecided("C12.R3", sc, None, "level-1 corner table or score function not evaluable", kind="level1-ranges")
     else:
-        bad = []
+        owner = {}
         for k, cs in enumerate(rows):
-            x, y = k % 2, k // 2
             eq = sorted(lon % 360 for lon, lat in cs if lat == 0)
             lo_deg, hi_deg = (eq[0], eq[1]) if eq != [0, 270] else (270, 360)
-            (lo, lop), (hi, hip) = ranges.get((x, y), ((None, None), (None, None)))
-            want_lo = sym.mul(num(sym.Fr(lo_deg, 180)), PI)
-            want_hi = sym.mul(num(sym.Fr(hi_deg, 180)), PI)
-            if lo != want_lo or hi != want_hi:
-                bad.append("tile (1,%d,%d) spans longitudes %d..%d degrees in the corner table but is selected for %s..%s" % (
-                    x, y, lo_deg, hi_deg, show(lo) if lo else "?", show(hi) if hi else "?"))
-        # coverage of the boundaries: each of 0, pi/2, pi, 3pi/2, 2pi is included by some range
-        incl = set()
-        for (x, y), ((lo, lop), (hi, hip)) in ranges.items():
-            if lop == "GtE":
-                incl.add(lo)
-            if hip == "LtE":
-                incl.add(hi)
-        need = [sym.mul(num(sym.Fr(k, 2)), PI) for k in range(5)]
-        missing = [show(b) for b in need if b not in incl]
-        if bad:
-            run.violated("C12.R3", sc, None, "level-1 quadrant test disagrees with the level-1 corner table: " + "; ".join(bad[:2]), kind="level1-range-table")
-        elif missing:
-            run.violated("C12.R3", sc, None, "no level-1 range includes the boundary longitude(s) %s: such points match no quadrant" % missing, kind="level1-boundaries")
+            owner[(k % 2, k // 2)] = (lo_deg, hi_deg)
+        problems = []
+        unknown = None
+        for kk in range(17):
+            deg = kk * 22.5
+            claim = []
+            for (x, y) in owner:
+                envt = {lon_s: sym.Fr(kk, 8) * sym.Fr(math.pi), posx: x, posy: y, posn: 1, PI: sym.Fr(math.pi),
+                        ("attr", tile_p, "pos"): (1, x, y)}
+                val = UNKNOWN
+                for pc, t, n in rs.returns:
+                    c = teval(boolalg.conj(pc), envt)
+                    if c is UNKNOWN:
+                        unknown = (n, show(boolalg.conj(pc))[:120])
+                        break
+                    if c:
+                        val = teval(t, envt)
+                        if val is UNKNOWN:
+                            unknown = (n, show(t)[:120])
+                        break
+                if unknown:
+                    break
+                if val == 0:
+                    claim.append((x, y))
+            if unknown:
+                break
+            inside = [p_ for p_, (lo, hi) in owner.items() if lo < deg < hi]
+            touching = [p_ for p_, (lo, hi) in owner.items() if lo <= deg <= hi or (deg == 0 and hi == 360) or (deg == 360 and lo == 0)]
+            if inside:
+                if claim != inside:
+                    problems.append("longitude %g deg lies in the quadrant of tile (1,%d,%d) of the corner table but the score function accepts %s" % (
+                        deg, inside[0][0], inside[0][1], ["(1,%d,%d)" % c_ for c_ in claim] or "no tile"))
+            else:
+                if not claim:
+                    problems.append("no level-1 tile accepts the boundary longitude %g deg: such points match no quadrant" % deg)
+                elif not set(claim) <= set(touching):
+                    problems.append("boundary longitude %g deg is given to %s, which does not touch it" % (deg, claim))
+        if unknown:
+            run.undecided("C12.R3", sc, unknown[0], "cannot evaluate the level-1 branch of the score function (%s)" % unknown[1], kind="level1-ranges")
+        elif problems:
+            kind = "level1-boundaries" if all("boundary" in p_ for p_ in problems) else "level1-range-table"
+            run.violated("C12.R3", sc, None, "level-1 quadrant test disagrees with the level-1 corner table: " + "; ".join(problems[:2]), kind=kind)
         else:
-            run.holds("C12.R3", sc, None, "level-1 ranges [0,90] (90,180] (180,270) [270,360] match the equatorial corners of the level-1 table")
+            run.holds("C12.R3", sc, None, "level-1 quadrants accepted by the score function match the equatorial corners of the level-1 table "
+                      "(17 longitudes x 4 positions; every boundary longitude is accepted by a touching tile)")
     # ---- R4 score
     hs = project.fn(T + "._left_of_half_space_score")
     run.note_func(hs)
@@ -195,7 +233,7 @@ def run(run):
     cor = ("attr", tile_p, "corners")
 
     def xyz(i):
-        return ("call", ("sym", "_equ_to_xyz"), (("sub", ("sub", cor, num(i)), num(1)), ("sub", ("sub", cor, num(i)), num(0))), ())
+        return ("call", ("sym", "_equ_to_xyz"), (("item", ("item", cor, i), 1), ("item", ("item", cor, i), 0)), ())
     tp = ("call", ("sym", "_equ_to_xyz"), (lat_s, lon_s), ())
     want_edges = [(xyz(0), xyz(1), tp), (xyz(1), xyz(2), tp), (xyz(2), xyz(3), tp), (xyz(3), xyz(0), tp)]
     got_edges = [tuple(e.term[2]) for e in edges]
@@ -213,22 +251,42 @@ def run(run):
     else:
         run.violated("C12.R4", sc, edges[0].node if edges else None, "the four half-space tests are not the tile's edges taken in order (ul,ur),(ur,lr),(lr,ll),(ll,ul) "
                      "with corners converted as (lat, lon) = (corner[1], corner[0])", kind="edges")
-    # selection loop
-    sel_ok = False
-    for k, it, n in div_loops:
-        body_assigns = [e for e in r.events if e.kind == "assign" and ("loop", k) in e.pc]
-        child = ("elem", it)
-        score_t = ("call", ("sym", "_toast_tile_containment_score"), (child, lat_p, M), ())
-        takes = [e for e in body_assigns if e.term[1][0] == ("sym", "tile")]
-        conds = [[c for c in e.pc if c[0] != "loop"] for e in takes]
-        zero = any(len(c) >= 1 and c[-1] == (sym.cmp("Eq", score_t, num(0)), True) for c in conds)
-        better = any(len(c) >= 1 and c[-1][1] is True and c[-1][0][0] == "op" and c[-1][0][1] == "cmp:Gt" and c[-1][0][2][0] == score_t for c in conds)
-        brk = any(e.kind == "break" and ("loop", k) in e.pc for e in r.events)
-        sel_ok = zero and better and brk
-    if sel_ok:
-        run.holds("C12.R4", f, None, "child selection: first child with score 0, else the child with the greatest (least negative) score")
+    # selection: for every pattern of child scores, the tile chosen by one descent step has the greatest score
+    # (a score of 0 is the greatest possible, so "first child that contains the point" is included)
+    if desc is None:
+        run.undecided("C12.R4", f, None, why, kind="selection-shape")
     else:
-        run.violated("C12.R4", f, None, "child selection is not `score == 0 -> take and stop; score > best -> remember`", kind="selection")
+        CUR, chosen, children, score_terms, rb = desc
+        by_child = {}
+        for t in score_terms:
+            by_child.setdefault(t[2][0], t)
+        if set(by_child) != set(children):
+            run.undecided("C12.R4", f, None, "the containment score is not computed for each of the four children (%d found)" % len(by_child), kind="selection-shape")
+        else:
+            inf = ("attr", ("sym", "np"), "inf")
+            bad = None
+            unknown = False
+            for vals in itertools.product((0, -1, -2), repeat=4):
+                envt = {inf: float("inf"), CUR: "PARENT"}
+                for i, c in enumerate(children):
+                    envt[c] = i
+                    envt[by_child[c]] = vals[i]
+                got = teval(chosen, envt)
+                if got is UNKNOWN:
+                    unknown = True
+                    break
+                if got == "PARENT" or vals[got] != max(vals):
+                    bad = (vals, got)
+                    break
+            if unknown:
+                run.undecided("C12.R4", f, None, "cannot evaluate the chosen child %s" % show(chosen)[:160], kind="selection-shape")
+            elif bad:
+                vals, got = bad
+                run.violated("C12.R4", f, None, "child selection is not `score == 0 -> take; otherwise the greatest (least negative) score`: for child scores %s "
+                             "the descent continues with %s" % (list(vals), ("child %d (score %d)" % (got, vals[got])) if got != "PARENT" else "the parent itself"),
+                             kind="selection")
+            else:
+                run.holds("C12.R4", f, None, "child selection: the chosen child has the greatest containment score (81 score patterns)")
     # ---- pixel lookup
     g = project.fn(T + ".toast_pixel_for_point")
     run.note_func(g)
@@ -264,8 +322,24 @@ def run(run):
         run.undecided("C12.R1", g, None, "grid longitudes are never used", kind="grid-unused")
     # ---- R5 stamp origin
     ret = rg.returns[-1][1] if rg.returns else None
-    subs = [a for e in rg.events if e.kind == "assign" for a in [e.term[1][1]] if a[0] == "sub" and a[2][0] == "tuple" and len(a[2][1]) == 2
-            and all(s_[0] == "slice" for s_ in a[2][1])]
+    def as_slice(t):
+        if t[0] == "slice":
+            return t
+        if t[0] == "call" and t[1] == ("sym", "slice") and not t[3] and 1 <= len(t[2]) <= 3:
+            a_ = list(t[2])
+            if len(a_) == 1:
+                a_ = [sym.NONE] + a_
+            return ("slice", a_[0], a_[1], a_[2] if len(a_) > 2 else sym.NONE)
+        return None
+    subs = []
+    seen_subs = set()
+    for e in rg.events:
+        if e.kind not in ("assign", "call", "return"):
+            continue
+        for a in atoms_of(e.term):
+            if a[0] == "sub" and a[2][0] == "tuple" and len(a[2][1]) == 2 and all(as_slice(s_) is not None for s_ in a[2][1]) and a not in seen_subs:
+                seen_subs.add(a)
+                subs.append(("sub", a[1], ("tuple", tuple(as_slice(s_) for s_ in a[2][1]))))
     if ret is None or ret[0] != "tuple" or len(ret[1]) != 3 or not subs:
         run.undecided("C12.R5", g, None, "cannot extract the fitting stamp / returned position", kind="stamp-shape")
         return
